@@ -374,7 +374,7 @@ def compare(reqs, busy, actions, obs, cblog, S, info, sim):
 
 
 def prepare(tier, seed):
-    return 8000 if tier == "quick" else 400000
+    return 30000 if tier == "quick" else 400000
 
 
 def params_for(i, tier, seed):
